@@ -1,5 +1,3 @@
-use std::cmp::Ordering;
-
 use pyo3::{
     prelude::*,
     types::{PyDate, PyDateAccess, PyDateTime, PyDelta, PyDeltaAccess, PyString, PyTimeAccess},
@@ -333,26 +331,16 @@ pub fn precise_diff<'py>(
         let days_in_month =
             DAYS_PER_MONTHS[usize::from(helpers::is_leap(dtinfo2.year))][dtinfo2.month as usize];
 
-        match day_diff.cmp(&(days_in_month - days_in_last_month)) {
-            Ordering::Less => {
-                // We don't have a full month, we calculate days
-                if days_in_last_month < dtinfo1.day {
-                    day_diff += dtinfo1.day;
-                } else {
-                    day_diff += days_in_last_month;
-                }
-            }
-            Ordering::Equal => {
-                // We have exactly a full month
-                // We remove the days difference
-                // and add one to the months difference
-                day_diff = 0;
-                month_diff += 1;
-            }
-            Ordering::Greater => {
-                // We have a full month
-                day_diff += days_in_last_month;
-            }
+        if dtinfo2.day == days_in_month && dtinfo2.day - dtinfo1.day == day_diff {
+            // dt2 is the last day of its month, dt1's day does not exist
+            // in that month and no time was borrowed: adding the months
+            // to dt1 lands (clamped) exactly on dt2, we have a full month
+            day_diff = 0;
+            month_diff += 1;
+        } else {
+            // We don't have a full month, we count the days from dt1's day
+            // (clamped to the length of the previous month)
+            day_diff += days_in_last_month.max(dtinfo1.day);
         }
 
         month_diff -= 1;
